@@ -13,7 +13,9 @@ from harness import simlayout as sl
 LEVEL = "model_checking"
 NAMES3 = {"A": [0, 1, 2], "B": [0, 2, 1], "C": [2, 1, 0]}           # B <-> C needs two hops on a 2-D process grid
 NAMES4 = {"A": [0, 3, 1, 2], "B": [0, 2, 1, 3], "C": [3, 2, 1, 0]}     # the driver's flux_surface / v_parallel / poloidal
-CONFIGS = [([4, 5, 6], [2, 2], NAMES3), ([3, 4, 5], [1, 1], NAMES3), ([5, 4, 6], [2, 1], NAMES3), ([4, 6, 5], [1, 2], NAMES3),
+# five layouts on a 2x2 grid in which A <-> B needs three hops (odd multi-hop route with the spare buffer)
+NAMES5 = {"A": [0, 1, 2, 3], "C": [0, 3, 2, 1], "D": [1, 3, 2, 0], "E": [1, 3, 0, 2], "B": [1, 2, 3, 0]}
+CONFIGS = [([4, 3, 5, 4], [2, 2], NAMES5), ([4, 5, 6], [2, 2], NAMES3), ([3, 4, 5], [1, 1], NAMES3), ([5, 4, 6], [2, 1], NAMES3), ([4, 6, 5], [1, 2], NAMES3),
            ([6, 5, 7], [3, 2], NAMES3), ([4, 4, 5, 6], [2, 2], NAMES4), ([3, 5, 4, 6], [1, 3], NAMES4), ([5, 4, 4, 5], [2, 1], NAMES4)]
 
 
@@ -144,11 +146,11 @@ def run(ctx):
             shape, nprocs, layouts = CONFIGS[ci]
             for dtype in (float, complex):
                 sub = hl[0::2] if dtype is float else hl[1::2]
-                if ci == 5:
+                if ci == 6:
                     sub = sub + [DRIVER]
                 if not sub:
                     continue
-                swapper = (ci % 3 == 2)
+                swapper = (ci % 3 == 0 and ci > 0)
                 n = int(np.prod(nprocs))
                 out = [[] for _ in range(n)]
                 res = MPI.run(n, grid_job, policy=rng.choice(["asc", "desc", "random", "rr"]), seed=rng.randint(0, 10 ** 6),
@@ -174,7 +176,7 @@ def run(ctx):
             while t < len(evs) and evs[t]["k"] != "reset":
                 t += 1
             ev, mt = evs[s:t], mts[s:t]
-            consts = "CONSTANTS LayoutNames = {\"A\",\"B\",\"C\"} HasSave = %s\nINVARIANT TVisibleIsModel\nINVARIANT TSaveProtected\nINVARIANT TIndices\n" % ("TRUE" if hs else "FALSE")
+            consts = "CONSTANTS LayoutNames = {\"A\",\"B\",\"C\",\"D\",\"E\"} HasSave = %s\nINVARIANT TVisibleIsModel\nINVARIANT TSaveProtected\nINVARIANT TIndices\n" % ("TRUE" if hs else "FALSE")
             rej, drift = ctx.validate_trace("C04Trace", ev, what="grid histories save=%s events %d..%d" % (hs, s, t), consts=consts)
             for j, (e, m) in enumerate(zip(ev, mt), 1):
                 nontriv = any(o["op"] in ("setLayout", "save") for o in m["history"][1:])
